@@ -262,3 +262,91 @@ def project(body, names):
                 if isinstance(n, ast.Name) and isinstance(n.ctx, ast.Store) and n.id in names:
                     raise AnalysisError(f'line {st.lineno}: `{n.id}` is assigned inside a loop/try: region analysis not applicable')
     return out
+
+
+# ----------------------------------------------------------------------- canonical call form
+def _static_callee(ctx, call: ast.Call, fi: FuncInfo):
+    """(FuncInfo, bound_receiver) for calls that resolve without flow typing: names, Class.method, module.func,
+    self/cls methods, methods on a freshly constructed kernpy object (`Exporter().export_string(...)`)."""
+    f = call.func
+    prog = ctx.prog
+    if isinstance(f, ast.Name):
+        r = prog.resolve_expr(fi.module, f, None)
+        if r and r[0] == 'def':
+            return r[1], False
+        if r and r[0] == 'class':
+            init = prog.find_method(r[1], '__init__')
+            return (init, True) if init is not None else (None, False)
+        return None, False
+    if isinstance(f, ast.Attribute):
+        base = f.value
+        if isinstance(base, ast.Name) and base.id in ('self', 'cls') and fi.cls is not None:
+            m = prog.find_method(fi.cls, f.attr)
+            return (m, True) if m is not None else (None, False)
+        if isinstance(base, (ast.Name, ast.Attribute)):
+            r = prog.resolve_expr(fi.module, f, None)
+            if r and r[0] == 'def':
+                t = r[1]
+                return t, t.kind in ('classmethod',) or False
+            if r and r[0] == 'class':
+                init = prog.find_method(r[1], '__init__')
+                return (init, True) if init is not None else (None, False)
+        if isinstance(base, ast.Call):
+            c = constructed_class(ctx, base, fi)
+            if c is not None:
+                m = prog.find_method(c, f.attr)
+                return (m, True) if m is not None else (None, False)
+    return None, False
+
+
+class _CanonCalls(ast.NodeTransformer):
+    def __init__(self, ctx, fi):
+        self.ctx, self.fi = ctx, fi
+
+    def visit_Call(self, node):
+        self.generic_visit(node)
+        try:
+            target, bound = _static_callee(self.ctx, node, self.fi)
+        except AnalysisError:
+            return node
+        if target is None or any(isinstance(a, ast.Starred) for a in node.args) or any(k.arg is None for k in node.keywords):
+            return node
+        if target.node.args.vararg is not None:
+            return node
+        try:
+            b = bind_args(node, target, bound and target.kind in ('method', 'classmethod'))
+        except AnalysisError:
+            return node
+        order = target.all_params
+        kws = []
+        for p in order:
+            if p in b:
+                d = param_default(target, p)
+                if d is not None and ast.unparse(d) == ast.unparse(b[p]):
+                    continue      # an explicitly passed default equals an omitted argument
+                kws.append(ast.keyword(arg=p, value=b[p]))
+        for k, v in b.items():
+            if k not in order:
+                kws.append(ast.keyword(arg=k, value=v))
+        return ast.Call(func=node.func, args=[], keywords=kws)
+
+
+def canon(ctx, node, fi: FuncInfo) -> str:
+    """Canonical source: resolvable calls in all-keyword form (parameter order, explicit defaults dropped)."""
+    if node is None:
+        return 'None'
+    n = _CanonCalls(ctx, fi).visit(clone(node))
+    return ast.unparse(n)
+
+
+def same(ctx, fi: FuncInfo, node, *expected: str) -> bool:
+    """Does `node` equal one of the expected expressions (given as source text) up to call-argument style?"""
+    got = canon(ctx, node, fi)
+    for e in expected:
+        try:
+            en = ast.parse(e, mode='eval').body
+        except SyntaxError:
+            continue
+        if canon(ctx, en, fi) == got:
+            return True
+    return False
